@@ -49,6 +49,8 @@ scan_all(struct mmgr *mm, uint8_t pat, struct hit *h, int with_mgr)
                 }
         }
         if (n < 4 && scan_buf(tc->vec, sizeof tc->vec, pat, &off)) {
+                if (g_opt.verbose)
+                        fprintf(stderr, "vec hit at %ld after %s: %s\n", off, g_cm->cur_fn, hexs(tc->vec + (off / 64) * 64, 64));
                 snprintf(h[n].where, sizeof h[n].where, "vec-reg%ld", off / 64);
                 h[n++].off = off;
         }
@@ -137,7 +139,27 @@ run_schedule(struct mmgr **pmm, int cfg, const struct suite *cs, const struct su
                 if (cls == 2 && I[i]->inplace) {
                         *skipped = 1; /* suites forced in place: the ciphertext replaces the plaintext, nothing to find */
                 }
+                /* GHASH-type MACs: message/AAD blocks that are a single bit at a byte boundary (x^(8k) in GF(2^128)): the
+                 * partial products message x hash-key are then byte-shifted copies of the key, so product residue shows as
+                 * pattern bytes too (derived key material, not only the raw key) */
+                if (cls != 2 && ((seed >> 11) & 1) &&
+                    (I[i]->hash == IMB_AUTH_GHASH || I[i]->hash == IMB_AUTH_AES_GMAC || I[i]->hash == IMB_AUTH_AES_GMAC_128 ||
+                     I[i]->hash == IMB_AUTH_AES_GMAC_192 || I[i]->hash == IMB_AUTH_AES_GMAC_256 || I[i]->hash == IMB_AUTH_SM4_GCM)) {
+                        struct item *it = I[i];
+                        plain_memset(it->src, 0, it->buf_len);
+                        for (uint32_t b = 0; b < it->buf_len; b += 16)
+                                it->src[b + (uint32_t) ((seed >> 13) + b / 16) % (it->buf_len - b < 16 ? it->buf_len - b : 16)] =
+                                        ((seed >> 12) + b) & 1 ? 0x80 : 0x01;
+                        if (it->aad && it->aad_len) {
+                                plain_memset(it->aad, 0, it->aad_len);
+                                for (uint32_t b = 0; b < it->aad_len; b += 16)
+                                        it->aad[b] = 0x80;
+                        }
+                }
                 pattern_item(I[i], cls, pat);
+                if (g_opt.verbose)
+                        fprintf(stderr, "job %d: dir %d order %d c_off %u c_len %u h_off %u h_len %u tag_len %u inplace %d\n", i, I[i]->dir,
+                                I[i]->order, I[i]->c_off, I[i]->c_len, I[i]->h_off, I[i]->h_len, I[i]->tag_len, I[i]->inplace);
         }
         if (sigsetjmp(jb, 1)) {
                 /* patterned (garbage) key material may legitimately upset nothing; a fault is reported by C07 engines */
@@ -156,6 +178,8 @@ run_schedule(struct mmgr **pmm, int cfg, const struct suite *cs, const struct su
                 IMB_JOB *j = mm_get_next_job(mm);
                 item_fill_job(I[i], j);
                 mm_submit_job(mm, 0, -2);
+                if (g_opt.verbose)
+                        fprintf(stderr, "submit %d -> outstanding %d\n", i, outstanding);
                 if (outstanding == 0 && i == njobs - 1) {
                         nh = scan_all(mm, pat, h, 1);
                         scanned = 1;
@@ -165,6 +189,8 @@ run_schedule(struct mmgr **pmm, int cfg, const struct suite *cs, const struct su
                 IMB_JOB *r = mm_flush_job(mm);
                 if (!r)
                         break;
+                if (g_opt.verbose)
+                        fprintf(stderr, "flush -> job of item %p outstanding %d\n", r->user_data, outstanding);
                 if (outstanding == 0) {
                         nh = scan_all(mm, pat, h, 1);
                         scanned = 1;
@@ -283,6 +309,8 @@ eng_residue(void)
                 for (long e = 0; e < per; e++, unit++) {
                         if (unit % g_opt.nshards != g_opt.shard)
                                 continue;
+                        if (g_opt.from_case > 0 && unit != g_opt.from_case)
+                                continue; /* replay aid: --from <case> runs exactly that case */
                         struct rng r;
                         rng_seed(&r, g_opt.seed * 48271 + (uint64_t) unit);
                         g_case_no = unit;
